@@ -30,7 +30,7 @@ ASSUMPTIONS = [
     "chain targets are the quadrature cell masses of C01 (tolerance 1e-8 relative + 1e-12)",
 ]
 REQUIRED_COUNTERS = ["laws_measured", "batch_elements_compared", "history_replays", "zero_probability_states_watched",
-                     "table_words_classes", "infinite_variation_copula_chains"]
+                     "table_words_classes", "infinite_variation_copula_chains", "used_sampler_copies"]
 MIN_NONTRIVIAL = {"quick": 80, "thorough": 600}
 SHARD_TIMEOUT = {"quick": 900, "thorough": 7200}
 TOP = 1e-12
@@ -505,6 +505,26 @@ def _chain_body(case, R, mspec, model, grid, g, lev, rng, is_copula):
                 return lambda u: g0(u * hi)
 
             _history(R, keyp, desc, make_fn, us, witness)
+            # copies of the USED sampler (the engines deep-copy the process for every level and pickle it for the workers): same law
+            import copy
+            import dill
+
+            for how, clone in (("deepcopy", lambda: copy.deepcopy(proc).sampling), ("dill-round-trip", lambda: dill.loads(dill.dumps(sampler)))):
+                try:
+                    smp2 = clone()
+                    hi2 = float(getattr(getattr(smp2, "uniform", None), "high", 1.0))
+                    g2 = S.single_u_function(method, smp2)
+                    got2 = [g2(u * hi2) for u in us]
+                except Exception as exc:  # noqa: BLE001
+                    R.skip(f"sampler-not-copyable[{how}]: {type(exc).__name__}")
+                    continue
+                R.hit("used_sampler_copies")
+                dif = [i for i, (a_, b_) in enumerate(zip(got2, singles)) if a_ != b_ and us[i] < 1 - TOP]
+                if dif:
+                    i = dif[0]
+                    R.violation(f"{keyp}-copy-of-a-used-sampler-differs", f"{desc}: a {how} of the used sampler maps uniform {us[i]!r} to {got2[i]}, the "
+                                f"sampler itself to {singles[i]}", witness)
+                    break
         if np.sum(target > 0) >= 2:
             R.nontrivial_case("chain", label, mspec, {k: v for k, v in g.items() if not k.startswith("_")}, lev, method)
     R.sample({"kind": "chain", "model": label, "grid": g, "level": lev, "states": K, "methods": case["methods"]})
